@@ -165,7 +165,7 @@ Proof.
                                let st5 := if f_nopy (get st4 p) then nopy_walk (List.length st4) st4 p e else st4 in
                                (st5, Exc e) end))).
   { intros st2 r Hk. eapply keeps_trans; [exact H1|]. eapply keeps_trans; [exact Hk|]. apply except_keeps. }
-  destruct s as [n ok|n|n kids|n steps|n bs|n bs|n cs|n ok kid|n bs].
+  destruct s as [n ok|n|n kids|n steps|n bs|n bs|n cs|n ok kid|n bs|n kid].
   - destruct ok; [apply (Hbody st1 (Ret (2000 + n)) (keeps_refl st1)) | apply (Hbody st1 (Exc n) (keeps_refl st1))].
   - apply (Hbody st1 (Ret 0) (keeps_refl st1)).
   - pose proof (nest_loop_keeps (glom_ fuel) IH n kids st1 (List.length st) t) as H.
@@ -184,6 +184,9 @@ Proof.
   - pose proof (alt_loop_keeps (glom_ fuel) IH 0 bs st1 (List.length st) t) as H.
     destruct (alt_loop (glom_ fuel) 0 st1 (List.length st) t bs) as [st2 [v|e]]; cbn [fst] in H;
       [apply (Hbody st2 (Ret v) H)|apply (Hbody st2 (Ret (3000 + n)) H)].
+  - pose proof (IH st1 (List.length st) t kid) as H.
+    destruct (glom_ fuel st1 (List.length st) t kid) as [st2 [v|e]]; cbn [fst] in H;
+      [apply (Hbody st2 (Exc (6000 + n)) H)|apply (Hbody st2 (Ret t) H)].
 Qed.
 
 (* the frame an evaluation creates names its spec occurrence, the target it was called with and the frame it was called from —
@@ -211,7 +214,7 @@ Proof.
                                  let st5 := if f_nopy (get st4 p) then nopy_walk (List.length st4) st4 p e else st4 in
                                  (st5, Exc e) end))).
     { intros st2 r Hk2. eapply keeps_trans; [exact Hk2|]. apply except_keeps. }
-    destruct s as [n ok|n|n kids|n steps|n bs|n bs|n cs|n ok kid|n bs].
+    destruct s as [n ok|n|n kids|n steps|n bs|n bs|n cs|n ok kid|n bs|n kid].
     - destruct ok; [apply (Hbody st1 (Ret (2000 + n)) (keeps_refl st1)) | apply (Hbody st1 (Exc n) (keeps_refl st1))].
     - apply (Hbody st1 (Ret 0) (keeps_refl st1)).
     - pose proof (nest_loop_keeps (glom_ fuel) (glom_keeps fuel) n kids st1 (List.length st) t) as H.
@@ -229,7 +232,10 @@ Proof.
         [destruct ok; [apply (Hbody st2 (Ret t) H)|apply (Hbody st2 (Exc (6000 + n)) H)]|apply (Hbody st2 (Exc e) H)].
     - pose proof (alt_loop_keeps (glom_ fuel) (glom_keeps fuel) 0 bs st1 (List.length st) t) as H.
       destruct (alt_loop (glom_ fuel) 0 st1 (List.length st) t bs) as [st2 [v|e]]; cbn [fst] in H;
-        [apply (Hbody st2 (Ret v) H)|apply (Hbody st2 (Ret (3000 + n)) H)]. }
+        [apply (Hbody st2 (Ret v) H)|apply (Hbody st2 (Ret (3000 + n)) H)].
+    - pose proof (glom_keeps fuel st1 (List.length st) t kid) as H.
+      destruct (glom_ fuel st1 (List.length st) t kid) as [st2 [v|e]]; cbn [fst] in H;
+        [apply (Hbody st2 (Exc (6000 + n)) H)|apply (Hbody st2 (Ret t) H)]. }
   destruct Hk as [Hk1 Hk2]. split; [lia|]. split.
   - rewrite Hk2 by lia. exact Hid.
   - intros i Hi. rewrite Hk2 by lia. unfold st1. rewrite get_upd.
